@@ -2724,7 +2724,7 @@ class MainProvider(ResolverMixin, BaseProvider):
         objs_list = context_data['data']
 
         max_obj_cnt = MaxObjectCount
-        if not max_obj_cnt:
+        if max_obj_cnt is None:
             max_obj_cnt = DEFAULT_MAX_OBJECT_COUNT
 
         if len(objs_list) <= max_obj_cnt:
